@@ -198,8 +198,15 @@ def run(c):
     if r0.rc != 0 or not m:
         raise vlib.Inconclusive("UnitLaws printed no table:\n" + r0.out[-1500:])
     rel = json.loads(m.group(1).replace('\\"', '"'))
+    mp = re.search(r'<<\s*"PRODUCTS",\s*"(.*?)"\s*>>', r0.out, re.S)
+    mr = re.search(r'<<\s*"ROUNDTRIPS",\s*"(.*?)"\s*>>', r0.out, re.S)
+    prods = json.loads(mp.group(1).replace('\\"', '"'))
+    rts = json.loads(mr.group(1).replace('\\"', '"'))
     uin, uout = os.path.join(rd, "units.txt"), os.path.join(rd, "units.ndjson")
-    open(uin, "w").write("".join("%s|%s|%d|%d\n" % tuple(x) for x in rel))
+    open(uin, "w").write("".join("%s|%s|%d|%d\n" % tuple(x) for x in rel) +
+                         "".join("P|%s|%s\n" % (x[0], "|".join("%s|%d" % tuple(y) for y in x[1:])) for x in prods) +
+                         "".join("R|%s|%d|%d\n" % tuple(x) for x in rts))
+    rel = rel + [[x[0], "product of its parts", 1, 0] for x in prods] + [[x[0], "itself after SI and back", 1, 0] for x in rts]
     rc, o = vlib.sh("%s units %s %s 2>&1" % (exe, uin, uout), timeout=120)
     if rc != 0:
         c.violation("yaml:units:abort", "UnitConverter::convert failed on a relation of the table (rc=%d): %s" % (rc, o[-300:]), {"relations": rel})
